@@ -2,10 +2,11 @@ import importlib
 import os
 import sys
 
-sys.path.insert(0, "/verif/lib")
+HERE = os.path.dirname(os.path.abspath(__file__))
+sys.path.insert(0, HERE)
 import paths  # noqa: E402
 sys.path.insert(0, paths.REPO)
-os.chdir("/verif")
+os.chdir(paths.VERIF)
 
 import framework  # noqa: E402
 
